@@ -108,9 +108,10 @@ Lemma nv_run :
   o_res o = Ok (demo_app 0 nv_cmd) /\ execs (o_card o) = [nv_cmd] /\ length (o_blocks o) = 10%nat.
 Proof. vm_compute. repeat split. Qed.
 
-(* outside C12 (non-conformant responder, recorded for C08): an S(WTX) block without the WTXM byte
-   crashes the reader with IndexError (data[1]) - before and after the repairs *)
+(* outside C12 (non-conformant responder, recorded for C08): an S(WTX) block without the WTXM byte crashed the
+   pinned reader with IndexError (data[1]); since fixes/c08-03 (HEAD, flags on) it is PROTOCOL_ERROR *)
 Lemma short_wtx_crash :
-  run_stream 5 k_repaired [0; 164; 0; 0] (pcd_start k_repaired [0; 164; 0; 0] 0) (fun _ => ARx [242]) 0 = Crash IndexErr /\
-  run_stream 5 k_legacy [0; 164; 0; 0] (pcd_start k_legacy [0; 164; 0; 0] 0) (fun _ => ARx [242]) 0 = Crash IndexErr.
+  run_stream 5 k_legacy [0; 164; 0; 0] (pcd_start k_legacy [0; 164; 0; 0] 0) (fun _ => ARx [242]) 0 = Crash IndexErr /\
+  run_stream 5 k_repaired [0; 164; 0; 0] (pcd_start k_repaired [0; 164; 0; 0] 0) (fun _ => ARx [242]) 0
+    = Err (TagCommandError E_PROTOCOL).
 Proof. vm_compute. split; reflexivity. Qed.
